@@ -85,6 +85,61 @@ func checkWriteCase(c writeCase) (string, bool) {
 	return "", true
 }
 
+// bigCase is a long pseudo-random byte string (given by a generator seed, so
+// that the replay file stays small) with a partition into successive writes.
+type bigCase struct {
+	Seed uint64 `json:"xorshift_seed"`
+	Len  int    `json:"length"`
+	Cuts []int  `json:"cuts"`
+}
+
+func (c bigCase) data() []byte {
+	x := c.Seed | 1
+	b := make([]byte, c.Len)
+	for i := range b {
+		x ^= x << 13
+		x ^= x >> 7
+		x ^= x << 17
+		b[i] = byte(x >> 24)
+	}
+	return b
+}
+
+func checkBigCase(c bigCase) (string, bool) {
+	data := c.data()
+	want := fitmodel.CRC(data)
+	if got := dyncrc16.Checksum(data); got != want {
+		return fmt.Sprintf("Checksum of %d bytes = %#04x, CRC-16/ARC = %#04x", len(data), got, want), false
+	}
+	h := dyncrc16.New()
+	if n, err := h.Write(data); n != len(data) || err != nil {
+		return fmt.Sprintf("a single Write of %d bytes returned (%d, %v)", len(data), n, err), false
+	}
+	if got := h.Sum16(); got != want {
+		return fmt.Sprintf("a single Write of %d bytes gives %#04x, CRC-16/ARC = %#04x", len(data), got, want), false
+	}
+	h.Reset()
+	prev := 0
+	for _, cut := range append(append([]int{}, c.Cuts...), len(data)) {
+		if cut < prev || cut > len(data) {
+			continue
+		}
+		if n, err := h.Write(data[prev:cut]); n != cut-prev || err != nil {
+			return fmt.Sprintf("Write of %d bytes returned (%d, %v)", cut-prev, n, err), false
+		}
+		prev = cut
+	}
+	if got := h.Sum16(); got != want {
+		return fmt.Sprintf("%d bytes written in pieces cut at %v give %#04x, a single write and the reference %#04x", len(data), c.Cuts, got, want), false
+	}
+	h.Reset()
+	h.Write(append(data, byte(want), byte(want>>8)))
+	if got := h.Sum16(); got != 0 {
+		return fmt.Sprintf("residue: %d bytes || sum written at once give %#04x, want 0", len(data), got), false
+	}
+	return "", true
+}
+
 type transCase struct {
 	State uint16 `json:"state"`
 	Byte  byte   `json:"byte"`
@@ -126,6 +181,12 @@ func TestC14(t *testing.T) {
 	hx.Main(t, "C14", func(rec *hx.Recorder) {
 		if rp, ok := hx.LoadReplay(); ok {
 			switch rp.Sub {
+			case "large-writes":
+				var c bigCase
+				json.Unmarshal(rp.Case, &c)
+				if msg, ok := checkBigCase(c); !ok {
+					rec.Fail(rp.Sub, "", msg, c)
+				}
 			case "transitions":
 				var c transCase
 				json.Unmarshal(rp.Case, &c)
@@ -218,6 +279,57 @@ func TestC14(t *testing.T) {
 				if msg, ok := checkWriteCase(c); !ok {
 					fail("", msg, c)
 				}
+			}
+		})
+
+		// Large writes: lengths at and around powers of two up to 1 MiB in a
+		// single Write (an encoded file's whole data section is checksummed
+		// with one Write), and the same data in pieces cut around those
+		// offsets. First a fixed list, then drawn lengths.
+		nbig := int64(0)
+		for _, base := range []int{256, 4096, 32768, 65536, 131072, 196608, 1 << 20} {
+			for delta := -1; delta <= 1; delta++ {
+				c := bigCase{Seed: uint64(base + delta), Len: base + delta, Cuts: []int{base / 2, base - 1}}
+				nbig++
+				if msg, ok := checkBigCase(c); !ok {
+					rec.Fail("large-writes", "", msg, c)
+					break
+				}
+			}
+		}
+		rec.Eval("large-writes", nbig)
+		bigCases, bigFailed := 0, false
+		hx.RapidCheck(t, rec, "large-writes", func(rt *rapid.T, fail func(string, string, any)) {
+			if bigCases >= hx.Pick(60, 3000) && !bigFailed {
+				return
+			}
+			bigCases++
+			c := bigCase{Seed: rapid.Uint64().Draw(rt, "seed")}
+			if rapid.Bool().Draw(rt, "near-power") {
+				c.Len = 1<<rapid.IntRange(8, 20).Draw(rt, "log2") + rapid.IntRange(-2, 2).Draw(rt, "delta")
+			} else {
+				c.Len = rapid.IntRange(0, 300000).Draw(rt, "len")
+			}
+			prev := 0
+			for i, n := 0, rapid.IntRange(0, 3).Draw(rt, "ncuts"); i < n; i++ {
+				cut := rapid.IntRange(prev, c.Len).Draw(rt, "cut")
+				if rapid.Bool().Draw(rt, "cut-near-64k") && c.Len > 65536 {
+					cut = (cut/65536)*65536 + rapid.IntRange(-1, 1).Draw(rt, "cutdelta")
+					if cut < prev || cut > c.Len {
+						cut = prev
+					}
+				}
+				c.Cuts = append(c.Cuts, cut)
+				prev = cut
+			}
+			rec.Eval("large-writes", 1)
+			if c.Len >= 65536 {
+				rec.Class("single write of 64 KiB or more", 1)
+				rec.NonTrivial(hx.FP(fmt.Sprint(c)))
+			}
+			if msg, ok := checkBigCase(c); !ok {
+				bigFailed = true
+				fail("", msg, c)
 			}
 		})
 
